@@ -31,7 +31,7 @@ class Work:
             if self.running.get(key) is not None:
                 return True
             works = [t for t in sim.threads if t.kind == "work" and t.state not in ("done",) and t is not sim.current]
-            return all(t.state == "blocked" for t in works)
+            return all(t.state == "blocked" and t.blocked_on != "stall" for t in works)
 
         def do(spec, sch, parent):
             aid = spec["id"]
@@ -139,7 +139,7 @@ class Prop:
                 else:
                     ops.append({"id": -1, "kind": "cancel", "target": rng.randrange(0, nid[0] + 2)})
             scripts.append(ops)
-        return {"mode": mode, "scripts": scripts, "sched": th.gen_sched(rng, spurious_p=0.3, drift_p=0.4, sweep_p=0.02)}
+        return {"mode": mode, "scripts": scripts, "sched": th.gen_sched(rng, spurious_p=0.3, drift_p=0.4, sweep_p=0.02, stall_p=0.3)}
 
     def execute(self, sc):
         if sc["sched"].get("sweep") and "cps" not in sc:
